@@ -175,7 +175,13 @@ static char *unescape(const char *s, const char *end) {
   }
 #undef PUT
   o[len] = 0;
-  return o;
+  /* hand out a block of exactly len + 1 bytes: on the sanitizer build a scan that runs past the terminating NUL then lands in
+   * the red zone instead of in the slack of the growth buffer (seeded/C09_6) */
+  char *exact = malloc(len + 1);
+  if (!exact) return o;
+  memcpy(exact, o, len + 1);
+  free(o);
+  return exact;
 }
 
 static uint64_t fnv(const uint8_t *p, size_t n) {
